@@ -1,6 +1,11 @@
-// c18race: the C18 workload as a stand-alone program, built with `go build -race` by the C18
+// c18race: the C18 workload as a stand-alone program, built with `go build -race` (and once more without) by the C18
 // suite.  Exit 0 = no mismatch (a detected data race makes the race runtime exit with 66 when
 // GORACE=halt_on_error=1 exitcode=66 and print its report on stderr).
+//
+// -cold: cold-start mode (wp c18gen).  A fresh process is the only place where the FIRST use of the library's shared
+// tables can be observed: kind after kind of operation, all goroutines are released together by a spinning barrier
+// (c18work.ColdStart); nothing of the library runs before, the sequential reference is computed afterwards, then once
+// more in reversed order (results must not depend on what ran earlier in the process).
 package main
 
 import (
@@ -18,18 +23,39 @@ func main() {
 	k := flag.Int("k", 8, "goroutines")
 	reps := flag.Int("reps", 2, "passes per goroutine")
 	procs := flag.Int("procs", 8, "GOMAXPROCS")
+	cold := flag.Bool("cold", false, "cold-start mode: phase-wise concurrent first use of every kind of operation")
 	flag.Parse()
 	c18work.LoadPhotos(*repo)
 	jobs := c18work.Jobs(*seed, *njobs)
-	// concurrent phase first (cold start), sequential reference afterwards
-	results, bad := c18work.Concurrent(jobs, *k, *reps, *procs, *seed)
+	var results [][]string
+	var bad []string
+	nph := 0
+	if *cold {
+		var phases []string
+		results, phases = c18work.ColdStart(jobs, *k, *procs, *seed)
+		nph = len(phases)
+	} else {
+		// concurrent phase first, sequential reference afterwards
+		results, bad = c18work.Concurrent(jobs, *k, *reps, *procs, *seed)
+	}
 	want := c18work.Sequential(jobs)
 	bad = append(bad, c18work.Compare(results, want)...)
+	if *cold {
+		rev, _ := c18work.Orders(len(jobs), *seed)
+		again := c18work.SequentialOrder(jobs, rev)
+		for i := range want {
+			if want[i] != again[i] && len(bad) < 40 {
+				bad = append(bad, fmt.Sprintf("job %d depends on the order of calls: in list order %s, in reversed order %s", i, want[i], again[i]))
+			}
+		}
+	}
+	// fingerprint of the shared init-time tables after everything has run (never before: that would warm them up)
+	fmt.Println("DIGEST", c18work.SharedDigest())
 	for _, b := range bad {
 		fmt.Println("MISMATCH", b)
 	}
 	if len(bad) > 0 {
 		os.Exit(3)
 	}
-	fmt.Printf("OK jobs=%d k=%d reps=%d procs=%d photos=%d\n", len(jobs), *k, *reps, *procs, len(c18work.Photos))
+	fmt.Printf("OK jobs=%d k=%d reps=%d procs=%d photos=%d cold-phases=%d\n", len(jobs), *k, *reps, *procs, len(c18work.Photos), nph)
 }
